@@ -11,6 +11,11 @@ package message
 //@ ghost var strmEncrypting bool
 //@ ghost var strmKeyed bool
 
+// what *stream.Stream's receive / send paths may change, seen through an interface value X (precise: the key, the
+// cipher object and the encrypting flag are NOT in these sets, so message traffic cannot un-key a stream)
+//@ assignset strmRecv(X) = when(typeis(X, "*stream.Stream"), unbox(X, "*stream.Stream").finishedRecvAAD), when(typeis(X, "*stream.Stream"), unbox(X, "*stream.Stream").finalSendDigest), when(typeis(X, "*stream.Stream"), unbox(X, "*stream.Stream").finalRecvDigest), when(typeis(X, "*stream.Stream"), unbox(X, "*stream.Stream").decryptCounter), when(typeis(X, "*stream.Stream"), unbox(X, "*stream.Stream").decryptIV), when(typeis(X, "*stream.Stream"), unbox(X, "*stream.Stream").recvDigestWritten)
+//@ assignset strmSend(X) = when(typeis(X, "*stream.Stream"), unbox(X, "*stream.Stream").finishedSendAAD), when(typeis(X, "*stream.Stream"), unbox(X, "*stream.Stream").finalSendDigest), when(typeis(X, "*stream.Stream"), unbox(X, "*stream.Stream").finalRecvDigest), when(typeis(X, "*stream.Stream"), unbox(X, "*stream.Stream").encryptCounter), when(typeis(X, "*stream.Stream"), unbox(X, "*stream.Stream").frameBuf), when(typeis(X, "*stream.Stream"), unbox(X, "*stream.Stream").sendDigestWritten)
+//@ assignset strmToggle(X) = when(typeis(X, "*stream.Stream"), unbox(X, "*stream.Stream").encrypted), when(typeis(X, "*stream.Stream"), unbox(X, "*stream.Stream").cryptoBeforeSecret)
 //@ assignset ifaceRead = rdCount, rdTotal, rdLast, rdFail, ctxClock, afCtx, afCount, hashWrites, openCount, openOKCount, openPT, openNonce, openAAD, openCT, openObj
 //@ assignset ifaceWrite = wrCount, wrLast, sealCount, sealPT, sealNonce, sealAAD, sealObj, sealOut, ctxClock, afCtx, afCount, hashWrites
 
@@ -22,7 +27,7 @@ package message
 //@ func StreamInterface.WriteFrame (ctx, data, isEOM) (err)
 //@   requires size: len(data) <= 1048576
 //@   props C01 C09
-//@   assigns @ifaceWrite, ifaceobj(self, "*stream.Stream")
+//@   assigns @ifaceWrite, @strmSend(self)
 //@   ensures written: err == nil ==> wrCount == old(wrCount) + 1 && wrLast[0] == ite(isEOM, 1, 0)
 //@   ensures plain_payload: err == nil && !(strmEncrypting && strmKeyed) ==> len(wrLast) == 5 + len(data) && forall i :: 0 <= i && i < len(data) ==> wrLast[5+i] == old(data[i])
 //@   ensures sealed: err == nil && strmEncrypting && strmKeyed ==> sealCount == old(sealCount) + 1 && sealPT == old(str(data))
@@ -33,7 +38,7 @@ package message
 
 //@ func StreamInterface.ReadFrame (ctx) (data, isEOM, err)
 //@   props C01 C02 C13
-//@   assigns @ifaceRead, ifaceobj(self, "*stream.Stream")
+//@   assigns @ifaceRead, @strmRecv(self)
 //@   ensures err_nodata: err != nil ==> data == nil && !isEOM && openOKCount == old(openOKCount)
 //@   ensures not_eof: err != io.EOF
 //@   ensures bounded: err == nil ==> len(data) <= 1048576 + 32
@@ -46,8 +51,8 @@ package message
 //@ view viewAt(m, i) = bufAt(m.buffer, i)
 
 //@ assignset msgBuf = m.buffer.buf, m.buffer.off, m.buffer.lastRead, elems(m.buffer.buf)
-//@ assignset msgRead = m.isEOM, m.finished, bufConsumed, @msgBuf, @ifaceRead, ifaceobj(m.stream, "*stream.Stream")
-//@ assignset msgWrite = bufConsumed, @msgBuf, @ifaceWrite, ifaceobj(m.stream, "*stream.Stream")
+//@ assignset msgRead = m.isEOM, m.finished, bufConsumed, @msgBuf, @ifaceRead, @strmRecv(m.stream)
+//@ assignset msgWrite = bufConsumed, @msgBuf, @ifaceWrite, @strmSend(m.stream)
 
 //@ func (*Message).ensureData
 //@   props C01 C02 C13 C14
@@ -413,17 +418,17 @@ package message
 //@   ensures result == (!strmKeyed || strmEncrypting)
 //@ func github.com/bbockelm/cedar/message.secretCrypto.PrepareCryptoForSecret ()
 //@   props C09
-//@   assigns strmEncrypting, strmSaved, ifaceobj(self, "*stream.Stream")
+//@   assigns strmEncrypting, strmSaved, @strmToggle(self)
 //@   ensures strmSaved == old(strmEncrypting) && strmEncrypting == (old(strmEncrypting) || strmKeyed)
 //@ func github.com/bbockelm/cedar/message.secretCrypto.RestoreCryptoAfterSecret ()
 //@   props C09
-//@   assigns strmEncrypting, ifaceobj(self, "*stream.Stream")
+//@   assigns strmEncrypting, @strmToggle(self)
 //@   ensures strmEncrypting == strmSaved
 
 //@ func (*Message).putSecretExpr
 //@   props C09
 //@   requires inv: encInv(m)
-//@   assigns @msgWrite, strmEncrypting, strmSaved
+//@   assigns @msgWrite, strmEncrypting, strmSaved, @strmToggle(m.stream)
 //@   let canSeal = typeis(m.stream, "*stream.Stream") && old(strmKeyed)
 //@   ensures restored: strmEncrypting == old(strmEncrypting)
 //@   assert before call PutString #2 secret_buffered_while_encrypting: typeis(m.stream, "*stream.Stream") && strmKeyed ==> strmEncrypting && viewLen(m) == 0
@@ -436,7 +441,7 @@ package message
 //@ func (*Message).getSecretString (m, ctx) (result, err)
 //@   props C09 C13
 //@   requires inv: msgInv(m)
-//@   assigns @msgRead, strmEncrypting, strmSaved
+//@   assigns @msgRead, strmEncrypting, strmSaved, @strmToggle(m.stream)
 //@   ensures restored: typeis(m.stream, "*stream.Stream") ==> strmEncrypting == old(strmEncrypting)
 //@   ensures inv_kept: msgInv(m)
 
@@ -448,7 +453,7 @@ package message
 //@ func putClassAdToMessageWithOptions
 //@   props C09
 //@   requires inv: encInv(m) && ad != nil
-//@   assigns @msgWrite, strmEncrypting, strmSaved
+//@   assigns @msgWrite, strmEncrypting, strmSaved, @strmToggle(m.stream)
 //@   assert before call filterAttributesByPrivacy #1 flags_from_statement: arg1 == exclOf(config) && arg2 == exclV2Of(config)
 //@   assert before call filterAttributesByWhitelist #1 flags_from_statement: arg3 == exclOf(config) && arg4 == exclV2Of(config)
 //@   assert before call PutString #2 private_never_plain_when_keyed: typeis(m.stream, "*stream.Stream") && strmKeyed && !strmEncrypting ==> !(privV1(fmtArg0(arg2)) || privV2(fmtArg0(arg2)))
